@@ -65,7 +65,7 @@ def build_unit(name, canary=False):
     reg = registry()
     cfg = reg["units"][name]
     repo = mkrepo(cfg)
-    asm = U.assemble(repo, cfg["fragments"], canary=canary, canary_frags=cfg.get("canary_fragments"))
+    asm = U.assemble(repo, cfg["fragments"], canary=canary, canary_frags=cfg.get("canary_fragments"), variant=cfg.get("base_variant"))
     os.makedirs(BUILD, exist_ok=True)
     path = os.path.join(BUILD, name + ("_canary" if canary else "") + ".rs")
     with open(path, "w", encoding="utf-8") as f:
@@ -165,6 +165,8 @@ def failure_info(asm, diag, build_lines):
             break
     pl = prim[0][0]["line_start"] if prim else (spans[0]["line_start"] if spans else 0)
     clause = build_lines[pl - 1].strip() if 0 < pl <= len(build_lines) else ""
+    # the label is the clause itself: comments are not part of it
+    clause = re.sub(r"\s*//.*$", "", clause)
     site = None
     for s, w in sec + prim:
         if s.get("label") and ("exit" in s["label"] or "end of the function" in s["label"]):
@@ -295,7 +297,8 @@ def cmd_check(pid, tier):
         print("vx: property %s is not claimed (see MANIFEST not_applicable)" % pid, file=sys.stderr)
         return 2
     pcfg = reg["properties"][pid]
-    units = pcfg["units"]
+    # the thorough tier also verifies the feature variants of the units (e.g. the `encoding` build of the reader)
+    units = list(pcfg["units"]) + (list(pcfg.get("units_thorough", [])) if tier == "thorough" else [])
     results = {}
     with concurrent.futures.ThreadPoolExecutor(max_workers=4) as ex:
         futs = {ex.submit(verify_unit, u): u for u in units}
@@ -317,6 +320,8 @@ def cmd_check(pid, tier):
                 undecided.append({"unit": "async_identity", "reason": "async instantiation of %s is not the verified text: %s" % (name, detail)})
     findings, fixed = load_known()
     my_findings = [f for f in findings if f.get("property") == pid]
+    # a property that rests on other properties' contracts (registry: "inherits") is served by their regions too
+    mine = {pid} | set(pcfg.get("inherits", []))
     violations, known_hits, foreign = [], [], []
     serving_regions = []
     all_regions = []
@@ -324,13 +329,13 @@ def cmd_check(pid, tier):
         r = results[u]
         for rg in r.get("regions", []):
             all_regions.append((u, rg))
-            if pid in rg.serves:
+            if mine & set(rg.serves):
                 serving_regions.append((u, rg))
         for f in r["failures"]:
             rg = f["region"]
             serves = rg.serves if rg is not None else [pid]
             audit = rg is not None and rg.opts.get("audit")
-            if pid not in serves:
+            if not (mine & set(serves)):
                 foreign.append(f)
                 continue
             hit = None
@@ -543,9 +548,19 @@ def main(argv):
             reg = registry()
             frag = argv[1]
             # a fragment shared by several units is snapshotted with the smallest feature set that uses it
-            cands = [u.get("features", []) for u in reg["units"].values() if frag in u["fragments"]]
-            feats = min(cands, key=len) if cands else []
-            U.sync(Repo(repo_root(), feats), frag, only=set(argv[2:]) or None)
+            # `vx sync <fragment> [--unit U] [ids]`: snapshots for the default feature set of the smallest unit
+            # using the fragment, or (with --unit) the overlay of that unit's base variant
+            args = argv[2:]
+            variant = None
+            if "--unit" in args:
+                k = args.index("--unit")
+                ucfg = reg["units"][args[k + 1]]
+                feats, variant = ucfg.get("features", []), ucfg.get("base_variant")
+                args = args[:k] + args[k + 2:]
+            else:
+                cands = [u.get("features", []) for u in reg["units"].values() if frag in u["fragments"] and not u.get("base_variant")]
+                feats = min(cands, key=len) if cands else []
+            U.sync(Repo(repo_root(), feats), frag, only=set(args) or None, variant=variant)
             return 0
         if cmd == "build":
             asm, path, cfg = build_unit(argv[1], canary="--canary" in argv)
